@@ -614,9 +614,7 @@ func genHist(r *vh.Rand) in {
 				ops = append(ops, readBacks(reqs, req, ti, 3)...)
 			}
 		case x < 55:
-			for tries := 0; tries < 5 && phLeft(req) && !r.Chance(1, 12); tries++ {
-				req = genReq() // View.Unset through an unfilled placeholder is outside the model: keep it rare
-			}
+			_ = phLeft // View.Unset through an unfilled placeholder is modelled now: no avoidance
 			ops = append(ops, op{K: "unset", I: r.Intn(ntx), Req: strings.Join(req, ".")})
 		case x < 59:
 			ops = append(ops, op{K: "bare", Req: strings.Join(req, "."), V: genFor(req)})
@@ -636,6 +634,25 @@ func genHist(r *vh.Rand) in {
 	ops = append(ops, op{K: "new"})
 	for _, u := range used {
 		ops = append(ops, op{K: "get", I: ntx, Req: strings.Join(u, ".")})
+	}
+	// Unset through an unfilled placeholder: the literal prefix of a rule request that has a placeholder further right
+	if r.Chance(1, 2) {
+		for _, pat := range reqs {
+			cut := -1
+			for k, x := range pat {
+				if strings.HasPrefix(x, "{") {
+					cut = k
+					break
+				}
+			}
+			if cut <= 0 {
+				continue
+			}
+			pre := strings.Join(pat[:cut], ".")
+			ops = append(ops, op{K: "get", I: ntx, Req: pre}, op{K: "unset", I: ntx, Req: pre}, op{K: "get", I: ntx, Req: pre},
+				op{K: "get", I: ntx, Req: ""}, op{K: "commit", I: ntx}, op{K: "new"}, op{K: "get", I: ntx + 1, Req: ""})
+			break
+		}
 	}
 	return in{Rules: rules, Ops: ops}
 }
@@ -817,6 +834,14 @@ func fixed() []in {
 		{Rules: []rule{{Req: "a.{x}.b", Sto: "p.{x}"}, {Req: "c", Sto: "q"}},
 			Ops: []op{{K: "new"}, {K: "set", Req: "a", V: map[string]interface{}{"c": map[string]interface{}{"b": int64(1)}, "d": map[string]interface{}{"b": int64(2)}}},
 				{K: "get", Req: "a"}, {K: "get", Req: "a.c"}, {K: "get", Req: "a.d.b"}, {K: "get", Req: ""}, {K: "commit"}, {K: "new"}, {K: "get", I: 1, Req: "a"}}},
+		// Unset through an unfilled placeholder: match-all in the middle of the storage path / at its end (removes the level)
+		{Rules: []rule{{Req: "a.{x}.b", Sto: "p.{x}.q"}, {Req: "c.{y}", Sto: "r.{y}"}, {Req: "d", Sto: "r"}},
+			Ops: []op{{K: "new"}, {K: "set", Req: "a.c.b", V: int64(1)}, {K: "set", Req: "a.d.b", V: int64(2)}, {K: "set", Req: "c.a", V: int64(3)}, {K: "set", Req: "c.b", V: int64(4)},
+				{K: "commit"}, {K: "get", Req: ""}, {K: "unset", Req: "a"}, {K: "get", Req: "a"}, {K: "get", Req: "a.c.b"}, {K: "unset", Req: "c"}, {K: "get", Req: "c"}, {K: "get", Req: "d"},
+				{K: "commit"}, {K: "new"}, {K: "get", I: 1, Req: ""}, {K: "get", I: 1, Req: "d"}}},
+		// match-all Unset meeting a scalar on its way is a decoding error: the transaction can no longer commit
+		{Rules: []rule{{Req: "a.{x}.b", Sto: "p.{x}.q"}, {Req: "d", Sto: "p.d"}},
+			Ops: []op{{K: "new"}, {K: "set", Req: "a.c.b", V: int64(1)}, {K: "set", Req: "d", V: int64(5)}, {K: "unset", Req: "a"}, {K: "get", Req: "d"}, {K: "commit"}, {K: "new"}, {K: "get", I: 1, Req: "d"}}},
 		// nested rules and a prefix request with a value covering the suffixes
 		{Rules: []rule{{Req: "a", Sto: "p", Content: []rule{{Req: "b", Sto: "q"}, {Req: "c", Sto: "r", Acc: "read"}}}},
 			Ops: []op{{K: "new"}, {K: "set", Req: "a", V: map[string]interface{}{"b": int64(1), "d": int64(2)}}, {K: "get", Req: "a"}, {K: "get", Req: "a.b"}, {K: "set", Req: "a.c", V: int64(5)},
